@@ -1,9 +1,160 @@
 (** C01 - Sequence views obey the slice / reverse-complement algebra.
-    Only theorem statements; every proof is [exact <lemma>]. *)
-From CG3 Require Import Lib.PyZ Lib.PySlice Model.View Spec.ViewSpec Proofs.ViewProofs.
+    Only theorem statements; every proof is [exact <lemma>].
+
+    [view], [mk_view], [getitem_slice], [getitem_int], [value], [apply_op],
+    [run_ops] ... are the model of Model/View.v (transcribed from
+    SliceRecordABC / SeqView / SeqDataView / Sequence); [py_slice],
+    [py_getitem] are Python's own slice semantics (Lib/PySlice.v); [WF],
+    [Fits], [SWF], [spec_op], [run_spec] are the invariant and the plain-string
+    interpretation of Spec/ViewSpec.v. *)
+From CG3 Require Import Lib.PyZ Lib.Val Lib.PySlice Model.View Spec.ViewSpec Proofs.ViewProofs Proofs.ViewSeqProofs.
+
+(** * views *)
 
 (** the constructor establishes the invariant for arbitrary (optional,
-    negative, out-of-range) arguments *)
+    negative, out-of-range) arguments ... *)
 Theorem wf_mk_view : forall n a b c off v,
   0 <= n -> mk_view n a b c off = Ok v -> WF v.
 Proof. exact wf_mk_view_lemma. Qed.
+
+(** ... and realises exactly Python's [p[a:b:c]] *)
+Theorem value_mk_view : forall (A : Type) (p : list A) n a b c off v,
+  zlen p = n -> c <> Some 0 -> mk_view n a b c off = Ok v ->
+  value v p = py_slice p a b (step_of c).
+Proof. exact (@value_mk_view_lemma). Qed.
+
+(** the invariant is preserved by slicing and indexing (all three classes) *)
+Theorem wf_getitem_slice : forall fl v a b c v',
+  WF v -> getitem_slice fl v a b c = Ok v' -> WF v'.
+Proof. exact wf_getitem_slice_lemma. Qed.
+
+Theorem wf_getitem_int : forall v i v', WF v -> getitem_int v i = Ok v' -> WF v'.
+Proof. exact wf_getitem_int_lemma. Qed.
+
+Theorem fits_preserved : forall (A : Type) fl v (p : list A) a b c v',
+  WF v -> Fits v p -> getitem_slice fl v a b c = Ok v' -> Fits v' p.
+Proof. exact (@fits_getitem_slice). Qed.
+
+(** [len(view)] is the length of the displayed string *)
+Theorem len_value : forall (A : Type) v (p : list A), WF v -> zlen p = seq_len v -> zlen (value v p) = vlen v.
+Proof. exact (@len_value_lemma). Qed.
+
+(** HEADLINE: a slice of a view displays the Python slice of what the view
+    displays - every optional / negative / out-of-range bound, every non-zero
+    step, all four forward/reverse x forward/reverse branches, both zero-slice
+    flavours *)
+Theorem value_getitem_slice : forall (A : Type) fl v (p : list A) a b c v',
+  WF v -> Fits v p -> c <> Some 0 ->
+  getitem_slice fl v a b c = Ok v' ->
+  value v' p = py_slice (value v p) a b (step_of c).
+Proof. exact (@value_getitem_slice_lemma). Qed.
+
+(** slicing with a non-zero step never raises *)
+Theorem getitem_slice_total : forall fl v a b c e,
+  WF v -> c <> Some 0 -> getitem_slice fl v a b c <> Err e.
+Proof. exact getitem_slice_no_err. Qed.
+
+(** integer indexing: IndexError exactly when Python raises it, otherwise the
+    one-element view of the same element *)
+Theorem value_getitem_int : forall (A : Type) v (p : list A) i,
+  WF v -> zlen p = seq_len v ->
+  match getitem_int v i with
+  | Ok v' => exists y, py_getitem (value v p) i = Some y /\ value v' p = [y]
+  | Err _ => py_getitem (value v p) i = None
+  end.
+Proof. exact (@value_getitem_int_lemma). Qed.
+
+(** * parent coordinates *)
+
+(** the reported plus-strand segment [parent_start - offset, parent_stop - offset)
+    lies inside the parent ... *)
+Theorem parent_segment_bounds : forall v,
+  WF v -> 0 <= seg_lo v <= seg_hi v /\ seg_hi v <= seq_len v.
+Proof. exact seg_bounds. Qed.
+
+(** ... the view displays exactly that segment read with its stride and
+    orientation (strand = sign of step) ... *)
+Theorem parent_segment : forall (A : Type) v (p : list A),
+  WF v -> zlen p = seq_len v ->
+  value v p = strided (seg p (seg_lo v) (seg_hi v)) (step v).
+Proof. exact (@parent_segment_lemma). Qed.
+
+(** ... which for a contiguous view is exactly as long as the view, and for a
+    strided one overshoots the last displayed residue by less than one stride *)
+Theorem parent_segment_contiguous : forall v,
+  WF v -> Z.abs (step v) = 1 -> seg_hi v - seg_lo v = vlen v.
+Proof. exact parent_segment_exact. Qed.
+
+Theorem parent_segment_strided : forall v, WF v -> 0 < vlen v ->
+  Z.abs (step v) * (vlen v - 1) < seg_hi v - seg_lo v <= Z.abs (step v) * vlen v.
+Proof. exact parent_segment_tight. Qed.
+
+(** [SeqDataView.str_value] (reads [parent_start:parent_stop], then strides) = [SeqView.value] *)
+Theorem sdv_value_eq_value : forall (A : Type) v (p : list A),
+  WF v -> zlen p = seq_len v -> offset v = 0 -> sdv_value v p = value v p.
+Proof. exact (@sdv_value_lemma). Qed.
+
+(** rich-dict re-basing ([copy(sliced=True)] / [to_rich_dict]): the view over
+    the truncated parent displays the same string and keeps length and
+    orientation; its own segment starts at 0 *)
+Theorem copy_sliced_preserves : forall (A : Type) keep v (p : list A),
+  WF v -> zlen p = seq_len v ->
+  let '(r, seg') := copy_sliced keep v p in
+  exists v', r = Ok v' /\ WF v' /\ zlen seg' = seq_len v' /\
+    value v' seg' = value v p /\ vlen v' = vlen v /\
+    offset v' = (if keep then offset v else 0) /\
+    (0 < vlen v ->
+     seg_lo v' = 0 /\ seg_hi v' = seg_hi v - seg_lo v /\ (step v' <? 0) = (step v <? 0)).
+Proof. exact (@copy_sliced_lemma). Qed.
+
+(** [relative_position] inverts [absolute_position] on every displayed index
+    (the pair used by feature-coordinate translation, C04) *)
+Theorem abs_rel_inverse : forall v i, WF v -> 0 <= offset v -> 0 <= i < vlen v ->
+  exists a, absolute_position v i false = Ok a /\ relative_position v a false = Ok i.
+Proof. exact abs_rel_inverse_lemma. Qed.
+
+(** * sequences *)
+
+Theorem complement_involutive : forall k x, comp k (comp k x) = x.
+Proof. exact comp_involutive. Qed.
+
+(** one operation: succeeds exactly when the plain-string operation does and
+    then reads as its result; the invariant is kept *)
+Theorem apply_op_correct : forall i s o, SWF s -> op_ok_for i o ->
+  match apply_op i s o with
+  | Ok s' => SWF s' /\ spec_op (plain_of s) o = Some (plain_of s')
+  | Err _ => spec_op (plain_of s) o = None
+  end.
+Proof. exact apply_op_spec. Qed.
+
+(** HEADLINE (chains): for every sequence, annotation offset and chain of
+    slice / index / rc / to_rna / to_dna / copy operations of any depth, the
+    result reads (string and moltype) as the same chain applied to the plain
+    string.  [op_ok_for Fixed] excludes only a slice step of 0; the pinned
+    old-style implementation is covered except [to_rna]/[to_dna], the pinned
+    new-style one except [copy] (see the two [_refuted] theorems). *)
+Theorem chain_spec : forall i k p off ops s0,
+  init_seq k p off = Ok s0 -> Forall (op_ok_for i) ops ->
+  plain_of (run_ops i s0 ops) = run_spec ops (p, k).
+Proof. exact chain_spec_lemma. Qed.
+
+(** [copy(sliced=True)] of a sequence keeps string and parent coordinates *)
+Theorem copy_sliced_coords : forall i s s', i <> NewStyle ->
+  SWF s -> zlen (parent s) = seq_len (sv s) -> 0 < vlen (sv s) ->
+  apply_op i s CopySliced = Ok s' -> parent_coords s' = parent_coords s /\ realise s' = realise s.
+Proof. exact copy_sliced_coords_lemma. Qed.
+
+(** pinned old-style [to_moltype] converts the raw view string: the chain
+    [rc; to_rna] does not read as the plain-string chain (finding C01-F1) *)
+Theorem to_rna_old_refuted :
+  exists k p ops s0, init_seq k p 0 = Ok s0 /\ Forall op_ok ops /\
+    plain_of (run_ops OldStyle s0 ops) <> run_spec ops (p, k).
+Proof. exact to_rna_old_refuted_lemma. Qed.
+
+(** pinned new-style [copy()] of a sequence with an annotation offset raises
+    ValueError although the plain-string operation is the identity (finding C01-F4) *)
+Theorem copy_new_refuted :
+  exists k p off s0, init_seq k p off = Ok s0 /\
+    apply_op NewStyle s0 CopySliced = Err E_Value /\
+    spec_op (plain_of s0) CopySliced = Some (plain_of s0).
+Proof. exact copy_new_refuted_lemma. Qed.
